@@ -794,6 +794,21 @@ func c06SwapDelete(a *Anchors, r *core.Report) {
 	}
 }
 
+// insertsFreshObject: the value stored by this LoadOrStore is an object allocated in this function
+// (not yet reachable by anyone else).
+func insertsFreshObject(ins ssa.Instruction) bool {
+	cc := callCommon(ins)
+	if cc == nil || len(cc.Args) < 3 {
+		return false
+	}
+	v := cc.Args[2]
+	if mi, ok := v.(*ssa.MakeInterface); ok {
+		v = mi.X
+	}
+	_, ok := canon(v).(*ssa.Alloc)
+	return ok
+}
+
 // c06NameFlag: G5
 func c06NameFlag(a *Anchors, r *core.Report) {
 	rule := "C06.G5 name-claim-flag"
@@ -877,6 +892,8 @@ func c06NameFlag(a *Anchors, r *core.Report) {
 			if reaches(tst, isStore(false), isReturn) != nil {
 				probs = append(probs, "when the name is already taken the flag is not rolled back: the process can never register a name again")
 			}
+		} else if !insertsFreshObject(ins) {
+			probs = append(probs, "the name is inserted for an already published process without claiming its registered flag by compare-and-swap: two concurrent registrations of different names for one process both succeed and one name leaks after termination")
 		} else {
 			// spawn shape: on success the flag is set
 			if reaches(fst, isStore(true), func(in ssa.Instruction) bool {
